@@ -125,6 +125,8 @@ fn leaf_devs() -> Vec<Dev> { vec![
     ("issuer-name-other", |s, _, _, _| { s.issuer = "CN=someone else,C=US".into(); }),
     ("country-other", |s, _, _, _| { s.subject = s.subject.replace("C=US", "C=CA"); }), ("country-missing", |s, _, _, _| { s.subject = s.subject.replace(",C=US", ""); }),
     ("country-twice", |s, _, _, _| { s.subject = format!("{},C=CA", s.subject); }), ("state-on-leaf", |s, _, _, _| { s.subject = format!("{},ST=NY", s.subject); }),
+    // the same attributes as BMPString values (RFC 4514 `#hex` form of the DER value): a string type the crate cannot render as text
+    ("country-bmp", |s, _, _, _| { s.subject = s.subject.replace("C=US", "C=#1E0400550053"); }), ("state-bmp-on-leaf", |s, _, _, _| { s.subject = format!("{},ST=#1E04004E0059", s.subject); }),
 ] }
 
 fn anchor_devs() -> Vec<Dev> { vec![
@@ -140,6 +142,10 @@ fn anchor_devs() -> Vec<Dev> { vec![
     ("anchor-country-twice", |s, _, _, _| { s.subject = format!("{},C=CA", s.subject); s.issuer = s.subject.clone(); }),
     ("anchor-eku-present-critical", |s, _, _, _| s.exts.push(ext_eku(&[EKU_DS]))),
     ("anchor-country-other", |s, _, _, _| { s.subject = s.subject.replace("C=US", "C=CA"); s.issuer = s.subject.clone(); }),
+    ("anchor-country-bmp", |s, _, _, _| { s.subject = s.subject.replace("C=US", "C=#1E0400550053"); s.issuer = s.subject.clone(); }),
+    ("anchor-country-bmp-other", |s, _, _, _| { s.subject = s.subject.replace("C=US", "C=#1E0400440045"); s.issuer = s.subject.clone(); }),
+    ("anchor-state-bmp", |s, _, _, _| { s.subject = format!("{},ST=#1E04004E0059", s.subject); s.issuer = s.subject.clone(); }),
+    ("anchor-state-bmp-other", |s, _, _, _| { s.subject = format!("{},ST=#1E0400430041", s.subject); s.issuer = s.subject.clone(); }),
     ("anchor-state", |s, _, _, _| { s.subject = format!("{},ST=NY", s.subject); s.issuer = s.subject.clone(); }),
 ] }
 
@@ -205,7 +211,9 @@ pub fn run(ctx: &mut Ctx) {
             run_case(ctx, &format!("{role}:leaf+anchor-pair"), &Case { name: format!("{n1}+{n2}"), leaf: l, anchors: vec![(r, purpose)], keys: keys.clone() });
         } }
         // named leaf+anchor pairs that are always run: the attribute missing from / present in BOTH certificates
-        for (n1, n2) in [("country-missing", "anchor-country-missing"), ("state-on-leaf", "anchor-state"), ("country-other", "anchor-country-other"), ("country-twice", "anchor-country-twice"), ("country-missing", "anchor-state")] {
+        for (n1, n2) in [("country-missing", "anchor-country-missing"), ("state-on-leaf", "anchor-state"), ("country-other", "anchor-country-other"), ("country-twice", "anchor-country-twice"), ("country-missing", "anchor-state"),
+                         ("country-bmp", "anchor-country-bmp"), ("country-bmp", "anchor-country-bmp-other"), ("country-bmp", "anchor-country-other"),
+                         ("state-bmp-on-leaf", "anchor-state-bmp"), ("state-bmp-on-leaf", "anchor-state-bmp-other"), ("state-on-leaf", "anchor-state-bmp")] {
             let f1 = ldevs.iter().find(|d| d.0 == n1).unwrap().1; let f2 = adevs.iter().find(|d| d.0 == n2).unwrap().1;
             let mut rs = base_root.clone(); f2(&mut rs, &root_key, &root_key, &mut rng);
             let mut ls = base_leaf.clone(); ls.issuer = rs.subject.clone(); f1(&mut ls, &leaf_key, &root_key, &mut rng);
